@@ -8,6 +8,12 @@ Local Opaque dec pad0.
 
 Definition bounded (x : ent) : Prop := e_a x < 10 ^ 10 /\ e_b x < 10 ^ 5.
 
+Lemma bounded_b l : forallb (fun x => (e_a x <? 10 ^ 10) && (e_b x <? 10 ^ 5)) l = true -> Forall bounded l.
+Proof.
+  intros H. apply Forall_forall. intros x Hx. rewrite forallb_forall in H. specialize (H x Hx).
+  apply andb_true_iff in H. destruct H as [H1 H2]. split; apply N.ltb_lt; assumption.
+Qed.
+
 (* ------------------------------------------------------------------ one entry *)
 
 Lemma digits_head_not c l r : digits l -> l <> [] -> is_digit c = false -> head_not c (l ++ r).
